@@ -34,6 +34,17 @@ def handle (args : List String) : Option String :=
       match sessionC (stubCodec cs) (floatOps h) h ops with
       | .ok bs => return "ok " ++ toHex (ofBytes bs)
       | .error e => return "err " ++ werr e
+  | "append" :: cs :: hex :: ops => do
+      let cs ← cs.toNat?
+      let file := toBytes (← parseHex hex)
+      let ops ← ops.mapM parseOp
+      let chunks := ops.filterMap fun op => match op with | .points c => some c | _ => none
+      let o := match Header.decodeHdr file with
+        | .ok h => floatOps h
+        | .error _ => floatOps emptyHdr
+      match appendSessionC (stubCodec cs) o file chunks with
+      | .ok bs => return "ok " ++ toHex (ofBytes bs)
+      | .error _ => return "err"
   | ["read", cs, hex] => do
       let cs ← cs.toNat?
       match readFileC (stubCodec cs) (toBytes (← parseHex hex)) with
